@@ -127,6 +127,26 @@ ADDED = {
 for _k, _v in ADDED.items():
     CLAIMED[_k]['text'] += ' Added after the seeded-change rounds: ' + _v
 
+
+# rules added in round 3 (DESIGN.md 10.4)
+ADDED3 = {
+ 'C01': 'R2: range copies also agree on the C++ type a column is fetched into; R7: no member update on a local copy that is then dropped.',
+ 'C02': 'L6: no member update is made on a local copy that is then dropped (34 locals with member assignments).',
+ 'C03': 'S4 also requires every value-or-absent choice on a constant to be an equality with that constant; S7: every element a decoder appends in a loop is built afresh in that iteration.',
+ 'C06': 'G5: the statement-agreement rules of C01 (column <-> field / parameter in every schema-range copy, sibling filters); G6: the codecs the setters read-modify-write through are symmetric (C03 S1) and no update is lost on a local copy.',
+ 'C07': 'T9: the tables that carry the forest are created as the reference dump of the version defines them (the 2.x id column is AUTOINCREMENT).',
+ 'C08': 'K5: identifier domains of C++ values (the id() of a crate / track handle is bound only against columns naming that kind of row, through parameters too) and identifier width (every declaration an id passes through is 64 bit).',
+ 'C09': 'P4 also checks the shape of the transaction guard (BEGIN / COMMIT / ROLLBACK exactly when not committed, evaluated with sqlite3_get_autocommit() modelled).',
+ 'C11': 'W2: the suffix helpers search from the end for exactly one separator character; W7 also types binds and call arguments; W8 also requires the splice triggers to be present in every 2.x DDL; W9: a constant stored in a foreign-key column of Track names a row every creator inserts.',
+ 'C13': 'Y5: every loader opens or attaches only a path whose existence it tested, and each creator stamps the triple of its own class.',
+ 'C14': 'A6: every SQL statement executes where it is written (no statement is kept in a named database_binder, which would run in its destructor after a later COMMIT); A5 models conjunctions and sqlite3_get_autocommit().',
+ 'C15': 'U9 also requires the 2.x closure views to agree across versions; U10: no null pointer (data() of a possibly empty vector) reaches memcpy / memmove.',
+ 'C17': 'V5: each creator stamps the version of its own class, so the validator selected after reopening is the one written for that structure; V6: the listing helpers read the catalog of the database they are given (PRAGMA / sqlite_master statements qualified with their database-name parameter).',
+ 'C18': 'B9: row identifiers stay 64 bits wide through the table API.',
+}
+for _k, _v in ADDED3.items():
+    CLAIMED[_k]['text'] += ' Round 3: ' + _v
+
 NOT_APPLICABLE = {
  'C19': 'numerical result of integer/floating arithmetic over all inputs (ceiling division, quantisation, minimality, monotonicity): no structural clause beyond the division guard, which C15-U6 covers; a sound decision needs an arithmetic solver or proof (different family)',
  'C20': 'floating-point numerical behaviour of beat-grid extrapolation (bracketing, tempo preservation, idempotence up to rounding); only the iterator arithmetic is shape-visible and is covered by C15-U3',
